@@ -16,5 +16,7 @@ for V in "$@"; do
   res=$(./tools_try_seed.sh /verif/seeded/$ID-$V/patch.diff $ID quick 2>&1)
   rc=$(echo "$res" | grep -oE "exit=[0-9]+" | tail -1)
   sigs=$(echo "$res" | grep -oE "signature=[^ ]+" | sed 's/signature=//' | sort -u | head -4 | tr '\n' ' ')
+  if [ "$rc" = "exit=1" ]; then det=yes; elif [ "$rc" = "exit=0" ]; then det="**NO**"; else det="engine error ($rc)"; fi
+  echo "| $ID-$V | $ID | $det | $sigs |" > seeded/$ID-$V/result.txt
   echo "$ID-$V $rc $sigs"
 done
